@@ -29,6 +29,8 @@ import (
 	"sync"
 	"time"
 
+	cryptomb "github.com/envoyproxy/go-control-plane/contrib/envoy/extensions/private_key_providers/cryptomb/v3alpha"
+	qat "github.com/envoyproxy/go-control-plane/contrib/envoy/extensions/private_key_providers/qat/v3alpha"
 	admin "github.com/envoyproxy/go-control-plane/envoy/admin/v3"
 	core "github.com/envoyproxy/go-control-plane/envoy/config/core/v3"
 	wasm "github.com/envoyproxy/go-control-plane/envoy/extensions/filters/http/wasm/v3"
@@ -694,6 +696,8 @@ func (s *DiscoveryServer) getConfigDumpByResourceType(conn *Connection, req *mod
 								InlineBytes: []byte("[redacted]"),
 							},
 						}
+						// With a private key provider (cryptomb, qat) the key travels inside the provider's typed config
+						redactPrivateKeyProvider(secret.GetTlsCertificate().GetPrivateKeyProvider())
 					}
 					rr.Resource = protoconv.MessageToAny(secret)
 					dumps[resourceType] = append(dumps[resourceType], rr)
@@ -736,6 +740,31 @@ func (s *DiscoveryServer) getConfigDumpByResourceType(conn *Connection, req *mod
 	}
 
 	return dumps
+}
+
+// redactPrivateKeyProvider removes the private key from a private key provider's typed config (see toEnvoyTLSSecret).
+// A provider config of a type we do not know is dropped entirely: better no config in a debug dump than a key.
+func redactPrivateKeyProvider(pkp *tls.PrivateKeyProvider) {
+	if pkp.GetTypedConfig() == nil {
+		return
+	}
+	redacted := &core.DataSource{
+		Specifier: &core.DataSource_InlineBytes{
+			InlineBytes: []byte("[redacted]"),
+		},
+	}
+	cryptoMbConf := &cryptomb.CryptoMbPrivateKeyMethodConfig{}
+	qatConf := &qat.QatPrivateKeyMethodConfig{}
+	switch {
+	case pkp.GetTypedConfig().UnmarshalTo(cryptoMbConf) == nil:
+		cryptoMbConf.PrivateKey = redacted
+		pkp.ConfigType = &tls.PrivateKeyProvider_TypedConfig{TypedConfig: protoconv.MessageToAny(cryptoMbConf)}
+	case pkp.GetTypedConfig().UnmarshalTo(qatConf) == nil:
+		qatConf.PrivateKey = redacted
+		pkp.ConfigType = &tls.PrivateKeyProvider_TypedConfig{TypedConfig: protoconv.MessageToAny(qatConf)}
+	default:
+		pkp.ConfigType = nil
+	}
 }
 
 // connectionConfigDump converts the connection internal state into an Envoy Admin API config dump proto
